@@ -249,12 +249,15 @@ DAMAGE_KINDS = ["unsorted_leaf", "unsorted_branch", "dup_leaf", "dup_branch", "c
                 "chain_misorder", "chain_unalloc", "orphan_leaf", "orphan_branch", "none"]
 
 
-def damage_lines(kind, rng, cap, h):
+def damage_lines(kind, rng, cap, h, p=None, bp=None, ki=None):
     # positions and indexes are drawn blindly; an edit that does not apply is a no-op.
     # wide ranges so that last children / rightmost leaves / last keys are hit as well
-    p = rng.choice([0, 0, 1, 1, 2, 3, 4, 5, 6, 7, 9, 12])
-    bp = rng.choice([0, 0, 1, 2, 3, 4])
-    ki = rng.randrange(0, cap)
+    if p is None:
+        p = rng.choice([0, 0, 1, 1, 2, 3, 4, 5, 6, 7, 9, 12])
+    if bp is None:
+        bp = rng.choice([0, 0, 1, 2, 3, 4])
+    if ki is None:
+        ki = rng.randrange(0, cap)
     if kind == "unsorted_leaf":
         return [rng.choice([f"DMG LK {p} 1 {-BIG}", f"DMG LK {p} 0 {BIG}", f"DMG LK {p} {ki + 1} {-BIG}", f"DMG LK {p} {ki} {BIG}"])]
     if kind == "unsorted_branch":
@@ -310,9 +313,43 @@ def damage_lines(kind, rng, cap, h):
     return []
 
 
+LEAF_KINDS = ["unsorted_leaf", "dup_leaf", "count_vpop", "count_kpop", "count_pushk", "count_pushv", "overfill",
+              "underfill_leaf", "keyout_lo", "keyout_hi", "chain_trunc", "chain_skip", "chain_misorder", "chain_unalloc"]
+BRANCH_KINDS = ["unsorted_branch", "dup_branch", "underfill_branch", "child_pop", "child_dup", "badref_child"]
+
+
+def gen_c14_sweep(seed, shard, nshards):
+    """systematic part: a few fixed builds (three and four levels) x every damage kind x every
+    node position, one tiny history each; sharded round-robin"""
+    rng = random.Random(f"C14-sweep-{seed}")
+    builds = [(4, list(range(40))), (5, list(range(59, -1, -1))), (4, [(7 * i) % 31 for i in range(31)]),
+              (6, list(range(100)))]
+    out, n = [], 0
+    for bi, (cap, keys) in enumerate(builds):
+        combos = [(k, p_, None, None) for k in LEAF_KINDS for p_ in range(0, 24)]
+        combos += [(k, None, bp_, ki_) for k in BRANCH_KINDS for bp_ in range(0, 12) for ki_ in (0, 1, cap - 1)]
+        combos += [(k, None, None, None) for k in ("badref_root", "orphan_leaf", "orphan_branch")]
+        for (kind, p_, bp_, ki_) in combos:
+            n += 1
+            if n % nshards != shard:
+                continue
+            h = Hist(f"sw{bi}.{n}", "rust", cap)
+            for k in keys:
+                h.add(f"I {k} {h.sid} {h.sid * 10}")
+                h.sid += 1
+            for l in damage_lines(kind, rng, cap, h, p=p_, bp=bp_, ki=ki_):
+                h.add(l)
+            h.add("V")
+            h.add(f"TI {rng.randrange(len(keys))} {h.sid} {h.sid * 10}")
+            h.sid += 1
+            h.add(f"TR {rng.randrange(len(keys))}")
+            out.append(h)
+    return out
+
+
 def gen_c14(seed, shard, n_hist, tier):
     rng = random.Random(f"C14-{seed}-{shard}")
-    out = []
+    out = gen_c14_sweep(seed, shard, 16) if shard < 16 else []
     for i in range(n_hist):
         cap = rng.choice([4, 4, 5, 6, 7, 8, 16])
         h = Hist(f"{shard}.{i}", "rust", cap)
